@@ -165,6 +165,7 @@ func R_C20_load() {
 }
 
 // loading a module neither reads result-relevant nor writes process-wide state
+//
 //vp:race R_C20_load
 func H_C20_load_touches_no_global() {
 	// a first load warms nothing up that a second one may rely on
